@@ -48,8 +48,20 @@ namespace detail {
     }
   }
 #  define RLBOX_VERIF_INTERLEAVE(site) ::rlbox::detail::verif_interleave(site)
+  // Read notification: called with the address of a scalar in sandbox memory
+  // right before a tainted_volatile reads it, so that a test harness can count
+  // the reads of a cell and mutate it between two of them.
+  inline void (*verif_read_hook)(const volatile void* addr) = nullptr;
+  inline void verif_read(const volatile void* addr)
+  {
+    if (verif_read_hook != nullptr) {
+      verif_read_hook(addr);
+    }
+  }
+#  define RLBOX_VERIF_READ(addr) ::rlbox::detail::verif_read(addr)
 #else
 #  define RLBOX_VERIF_INTERLEAVE(site) (void)0
+#  define RLBOX_VERIF_READ(addr) (void)0
 #endif
 
 #ifdef RLBOX_NO_COMPILE_CHECKS
